@@ -21,6 +21,31 @@ func runSched(cmd string, args []string) error {
 		return runSchedReplay(args)
 	}
 
+	if cmd == "idmsched" {
+		fl := flag.NewFlagSet("idmsched", flag.ExitOnError)
+		out := fl.String("out", "", "history file")
+		gn := fl.String("gnames", "g1,g2", "group names")
+		un := fl.String("unames", "u1,u2", "user names")
+		bound := fl.Int("bound", 2, "preemption bound")
+		maxRuns := fl.Int("maxruns", 200, "executions per program at most")
+		_ = fl.Parse(args)
+
+		of, err := os.Create(*out)
+		if err != nil {
+			return err
+		}
+		defer of.Close()
+
+		n, runs, err := drv.IdmScheduled(strings.Split(*gn, ","), strings.Split(*un, ","), 1006, *bound, *maxRuns, of)
+		if err != nil {
+			return err
+		}
+
+		fmt.Printf("{\"histories\":%d,\"runs\":%d}\n", n, runs)
+
+		return nil
+	}
+
 	if cmd != "sched" {
 		return fmt.Errorf("unknown command %q", cmd)
 	}
